@@ -4,10 +4,13 @@ import (
 	"encoding/json"
 	"fmt"
 	"math/rand"
+	"os"
+	"path/filepath"
 	"regexp"
 	"strings"
 	"time"
 
+	"github.com/scrapli/scrapligo/channel"
 	"github.com/scrapli/scrapligo/driver/generic"
 	"github.com/scrapli/scrapligo/driver/network"
 	"github.com/scrapli/scrapligo/driver/opoptions"
@@ -74,6 +77,7 @@ func c01Variants(t string) []c01Variant {
 type cmdSender interface {
 	SendCommand(command string, opts ...util.Option) (*response.Response, error)
 	SendCommands(commands []string, opts ...util.Option) (*response.MultiResponse, error)
+	SendCommandsFromFile(f string, opts ...util.Option) (*response.MultiResponse, error)
 	Close() error
 }
 
@@ -114,6 +118,12 @@ func c01Run(s *c01Scn, va c01Variant, seedv int64) verdict {
 		cli.EchoWrap = 2
 	}
 
+	// a console that wants a carriage return for the return key, and a driver told so
+	crReturn := s.ID%5 == 3
+	if crReturn {
+		cli.Return = '\r'
+	}
+
 	pipe := simdev.NewPipe(cli, seedv)
 	pipe.Seg = va.seg
 	pipe.ReadDelay = va.devDelay
@@ -124,6 +134,10 @@ func c01Run(s *c01Scn, va c01Variant, seedv int64) verdict {
 		options.WithPromptSearchDepth(s.Depth),
 		options.WithReadDelay(va.readDelay),
 		options.WithTimeoutOps(4 * time.Second),
+	}
+
+	if crReturn {
+		opts = append(opts, options.WithReturnChar("\r"))
 	}
 
 	if s.ID%3 == 1 && len(outs) > 0 && len(strings.TrimSpace(outs[0])) >= 2 {
@@ -185,7 +199,34 @@ func c01Run(s *c01Scn, va c01Variant, seedv int64) verdict {
 
 	fin, pan := withWatchdog(30*time.Second, func() {
 		if va.api == "multi" {
-			m, e := d.SendCommands(cmds, opOpts...)
+			var m *response.MultiResponse
+
+			var e error
+
+			if s.ID%4 == 2 {
+				// the same commands from a file: LF or CR LF line ends, with or without one after the last line
+				eol := "\n"
+				if s.ID%8 == 2 {
+					eol = "\r\n"
+				}
+
+				content := strings.Join(cmds, eol)
+				if s.ID%3 != 0 {
+					content += eol
+				}
+
+				f := filepath.Join(os.TempDir(), fmt.Sprintf("c01-%d-%d-%s.txt", os.Getpid(), s.ID, strings.ReplaceAll(va.name, "/", "_")))
+				if werr := os.WriteFile(f, []byte(content), 0o600); werr != nil {
+					panic(werr)
+				}
+
+				defer os.Remove(f)
+
+				m, e = d.SendCommandsFromFile(f, opOpts...)
+			} else {
+				m, e = d.SendCommands(cmds, opOpts...)
+			}
+
 			if e != nil {
 				err = e
 
@@ -283,6 +324,178 @@ func c01Run(s *c01Scn, va c01Variant, seedv int64) verdict {
 	return v
 }
 
+// c01Reopen: a history instead of a session. The first command of the scenario is sent to a device that is busy: not even
+// the echo arrives, the send times out. The caller closes the driver; while the close is under way (the read loop is still
+// inside its transport read) the device's late bytes arrive. The same driver object is opened again - a new session, the
+// device greets it with banner and prompt - and the same command is sent again: it returns exactly its own output and the
+// device receives exactly the command and one return, whatever the old session left behind.
+func c01Reopen(s *c01Scn) verdict {
+	va := s.Variant
+	v := verdict{ID: s.ID, Variant: va, OK: true, Nontrivial: true}
+	rng := rand.New(rand.NewSource(int64(s.ID)))
+	prompt := concretise(s.Prompt, nil)
+	cmd := concretise(s.Cmds[0], nil)
+	out := concretiseMax(s.Outs[0], rng, s.ReadSize)
+	want := concretise(s.Expect[0], nil)
+
+	var unexpected []string
+
+	cli := &simdev.CLI{
+		Prompts: map[string]string{"m": prompt}, Mode: "m", StartMode: "m", Banner: "f \n", AlwaysEOL: true,
+		Handler: func(c *simdev.CLI, line string) string {
+			if line == cmd {
+				return out
+			}
+
+			unexpected = append(unexpected, line)
+
+			return "% bad command"
+		},
+	}
+	if s.Wrap {
+		cli.EchoWrap = 2
+	}
+
+	pipe := simdev.NewPipe(cli, int64(s.ID))
+	pipe.Seg = simdev.Seg{Mode: "rand", Max: 6}
+
+	if strings.Contains(va, "whole") {
+		pipe.Seg = simdev.Seg{Mode: "whole"}
+	}
+
+	opts := []util.Option{
+		options.WithCustomTransport(pipe), options.WithTransportReadSize(s.ReadSize), options.WithPromptSearchDepth(s.Depth),
+		options.WithReadDelay(30 * time.Microsecond), options.WithTimeoutOps(3 * time.Second),
+	}
+
+	var d cmdSender
+
+	var ch *channel.Channel
+
+	var err error
+
+	open := func() error { return nil }
+
+	if strings.Contains(va, "network") {
+		lv := map[string]*network.PrivilegeLevel{"exec": {Name: "exec", Pattern: `(?im)^[a-z\d.\-@()/:]{1,48}[#>$]\s*$`}}
+		opts = append(opts, options.WithPrivilegeLevels(lv), options.WithDefaultDesiredPriv("exec"))
+
+		var nd *network.Driver
+
+		if nd, err = network.NewDriver("sim", opts...); err == nil {
+			d, ch, open = nd, nd.Channel, nd.Open
+		}
+	} else {
+		var gd *generic.Driver
+
+		if gd, err = generic.NewDriver("sim", opts...); err == nil {
+			d, ch, open = gd, gd.Channel, gd.Open
+		}
+	}
+
+	if err == nil {
+		err = open()
+	}
+
+	if err != nil {
+		v.OK, v.Sig, v.Detail = false, "TOOL", fmt.Sprintf("first open: %v", err)
+
+		return v
+	}
+
+	var opOpts []util.Option
+	if !s.Strip {
+		opOpts = append(opOpts, opoptions.WithNoStripPrompt())
+	}
+
+	if s.Exact {
+		opOpts = append(opOpts, opoptions.WithExactMatchInput())
+	}
+
+	// session 1: the device is busy
+	pipe.WaitDrained(time.Second)
+	time.Sleep(2 * time.Millisecond)
+	pipe.Mark()
+	pipe.SetStall(0)
+
+	ch.TimeoutOps = 150 * time.Millisecond
+
+	var e1 error
+
+	fin, pan := withWatchdog(10*time.Second, func() { _, e1 = d.SendCommand(cmd, opOpts...) })
+	if !fin || pan != nil || e1 == nil {
+		v.OK, v.Sig, v.Detail = false, "TOOL", fmt.Sprintf("the send to the busy device: fin=%v panic=%v err=%v", fin, pan, e1)
+
+		return v
+	}
+
+	ch.TimeoutOps = 3 * time.Second
+
+	// the late bytes arrive while Close is waiting for the read loop
+	g := &gate{reached: map[string]bool{}, at: "C_wait", atFn: func() {
+		pipe.SetStall(-1)
+		pipe.WaitDrained(500 * time.Millisecond)
+		time.Sleep(3 * time.Millisecond)
+	}}
+	curGate.Store(g)
+
+	var e2 error
+
+	fin, pan = withWatchdog(10*time.Second, func() {
+		_ = d.Close()
+		e2 = open()
+	})
+
+	curGate.Store((*gate)(nil))
+
+	if !fin || pan != nil || e2 != nil {
+		v.OK, v.Sig, v.Detail = false, "TOOL", fmt.Sprintf("close and open again: fin=%v panic=%v err=%v", fin, pan, e2)
+
+		return v
+	}
+
+	pipe.Lock()
+	logPos := len(cli.Log)
+	pipe.Unlock()
+
+	var r *response.Response
+
+	fin, pan = withWatchdog(10*time.Second, func() { r, err = d.SendCommand(cmd, opOpts...) })
+
+	switch {
+	case !fin:
+		fail(&v, "C01:reopen:hang", "the send in the second session did not return")
+	case pan != nil:
+		fail(&v, "C01:reopen:panic", "%v", pan)
+	case err != nil:
+		fail(&v, "C01:reopen:error:"+errClass(err), "the send in the second session (late bytes of the first arrived during its Close: %v): %v", g.atFired, err)
+	case r.Result != want:
+		fail(&v, "C01:reopen:result-mismatch", "second session on the same driver, command %q: result %q, contract says %q (out %q; the first session's send had timed out, its late bytes arrived during Close)", cmd, r.Result, want, out)
+	}
+
+	_, _ = withWatchdog(5*time.Second, func() { _ = d.Close() })
+
+	pipe.Lock()
+	lines := []string{}
+
+	for _, rc := range cli.Log[logPos:] {
+		if rc.Line != "" {
+			lines = append(lines, rc.Line)
+		}
+	}
+	pipe.Unlock()
+
+	if v.OK && (len(lines) != 1 || lines[0] != cmd) {
+		fail(&v, "C01:reopen:devlog-mismatch", "in the second session the device received lines %q, expected [%q]", lines, cmd)
+	}
+
+	if v.OK && !g.atFired {
+		v.OK, v.Sig, v.Detail = false, "TOOL", "Close never reached the point at which the late bytes are released"
+	}
+
+	return v
+}
+
 func c01(_ []string) error {
 	var scns []*c01Scn
 
@@ -308,7 +521,15 @@ func c01(_ []string) error {
 
 	var jobs []job
 
+	var histories []*c01Scn
+
 	for _, s := range scns {
+		if strings.HasPrefix(s.Variant, "reopen/") {
+			histories = append(histories, s)
+
+			continue
+		}
+
 		for _, va := range vars {
 			if s.Variant != "" && s.Variant != va.name {
 				continue
@@ -322,6 +543,11 @@ func c01(_ []string) error {
 		j := jobs[i]
 		emit(c01Run(j.s, j.va, seed()*1000003+int64(j.s.ID)*31+int64(i%7)))
 	})
+
+	// the histories use the yield points of the library, which are process-wide: one at a time, after everything else
+	for _, s := range histories {
+		emit(c01Reopen(s))
+	}
 
 	return nil
 }
